@@ -22,7 +22,42 @@ def sh(cmd, cwd, timeout=900):
     return p.returncode, p.stdout + p.stderr
 
 
+def recheck(sid, props):
+    """Re-run checks against an already confirmed seed (seeded/<id>/patch.diff) and update its meta.json."""
+    dst = os.path.join(ROOT, 'seeded', sid)
+    meta = json.load(open(os.path.join(dst, 'meta.json')))
+    wt = f'/var/tmp/kevo-seed-{os.getpid()}'
+    subprocess.run(['git', '-C', '/repo', 'worktree', 'add', '-q', '--detach', wt, 'HEAD'], check=True)
+    try:
+        rc, out = sh(['git', 'apply', os.path.join(dst, 'patch.diff')], wt)
+        if rc:
+            print('patch no longer applies on HEAD:', out[-300:])
+            return 1
+        rc, out = sh(['go', 'build', './...'], wt)
+        if rc:
+            print('does not compile on HEAD')
+            return 1
+        det = meta.get('checks_run_against_it', {})
+        for pr in props:
+            p = subprocess.run(['./check', pr, '--tier', 'quick'], cwd=ROOT, env=dict(os.environ, VERIF_REPO=wt), capture_output=True, text=True)
+            first = [l for l in p.stdout.splitlines() if l.startswith('disagreement')][:1] or \
+                    [l for l in (p.stdout + p.stderr).splitlines() if l.startswith('INFRA')][:1]
+            det[pr] = {'exit': p.returncode, 'first': first[0][:400] if first else ''}
+            print(sid, pr, det[pr], flush=True)
+        meta['checks_run_against_it'] = det
+        meta['detected_by'] = sorted(k for k, v in det.items() if v['exit'] == 1)
+        with open(os.path.join(dst, 'meta.json'), 'w') as f:
+            json.dump(meta, f, indent=1)
+            f.write('\n')
+        return 0
+    finally:
+        subprocess.run(['git', '-C', '/repo', 'worktree', 'remove', '--force', wt], capture_output=True)
+        subprocess.run(['rm', '-rf', wt])
+
+
 def main():
+    if sys.argv[1] == '--recheck':
+        return recheck(sys.argv[2], sys.argv[3].split(','))
     mdir, sid, props = sys.argv[1], sys.argv[2], sys.argv[3].split(',')
     wt = f'/var/tmp/kevo-seed-{os.getpid()}'
     subprocess.run(['git', '-C', '/repo', 'worktree', 'add', '-q', '--detach', wt, 'HEAD'], check=True)
